@@ -24,15 +24,15 @@ RULE = (
     "additional yield point (sys.monitoring PY_START in the scheduled threads; the repository is not modified) and schedules of "
     "(thread, run length) pairs - pre-emption between autograd's own calls, e.g. between an operator wrapper storing its arguments and "
     "the trace reading them. Non-trivial there = a switch away from a thread stopped inside autograd's code."
-    ' Thread programs added later: holomorphic, complex_mid, const_graph, shared_pushforward / shared_pullback; shared:<kind> and shared_fine:<kind> tests run every shared-object program against itself.'
+    ' Thread programs added later: holomorphic, complex_mid, const_graph, shared_pushforward / shared_pullback, flatten (autograd.misc.flatten of same-structured parameters whose matrix leaf is C- or Fortran-ordered per thread; reference: closed form); shared:<kind> and shared_fine:<kind> tests run every shared-object program against itself.'
 )
 
 KINDS = ["grad1", "nested", "fwd_rev", "rev_fwd", "hvp", "jacobian", "nested3", "nested_jvp", "nested_twice", "two_calls",
          "shared_tjp", "shared_hvp_twice", "shared_grad", "grad1_bwd", "nested_bwd", "shared_jvp", "shared_args", "shared_ckpt", "nested_worker",
-         "holomorphic", "complex_mid", "const_graph", "shared_pushforward", "shared_pullback"]
+         "holomorphic", "complex_mid", "const_graph", "shared_pushforward", "shared_pullback", "flatten"]
 
 # kinds whose result must equal that of another kind: the same arithmetic with the inner differentiation run in the calling thread
-TWIN = {"nested_worker": "nested"}
+TWIN = {"nested_worker": "nested", "flatten": "flatten_ref"}  # (flatten_ref: the closed form in plain NumPy, not a kind that is drawn)
 
 _TLS = __import__("threading").local()
 _SHARED = {}
@@ -328,6 +328,32 @@ def make_prog(kind, a):
             r = autograd.holomorphic_grad(f)(z0)
             s.yp()
             return conv(r)
+    elif kind in ("flatten", "flatten_ref"):
+        def prog(s):
+            # autograd.misc.flatten on a dict of parameters whose matrix leaf is C-ordered in some threads and Fortran-ordered in others (same structure,
+            # shapes and dtypes): the gradient with respect to the flat vector.  The reference (flatten_ref) is the closed form in plain NumPy.
+            _TLS.s = s
+            W = onp.array([[0.3, -0.5, 0.8], [1.1, 0.2, -0.7]]) * (1.0 + a)
+            if a in (0.5, 1.25):
+                W = onp.asfortranarray(W)
+            b = onp.array([0.4, -0.9]) * (1.0 + a)
+            CW = onp.array([[1.0, 2.0, -1.5], [0.5, -2.5, 3.0]])
+            if kind == "flatten_ref":
+                return conv(onp.concatenate([onp.ravel(W), b, onp.ravel(CW * onp.cos(W)), b + b]))
+            from autograd.misc.flatten import flatten
+
+            flat, unflatten = flatten({"b": b, "W": W})
+            s.yp()
+
+            def loss(fl):
+                s.enter(); s.yp()
+                p_ = unflatten(fl)
+                y = anp.sum(anp.sin(p_["W"]) * CW) + anp.sum(p_["b"] * p_["b"])
+                s.yp(); s.leave()
+                return y
+            g = autograd.grad(loss)(flat)
+            s.yp()
+            return conv(onp.concatenate([flat, g]))
     elif kind == "complex_mid":
         def prog(s):
             # real in, real out, complex in between: complex cotangents reach real operands (through broadcasting operations)
